@@ -90,6 +90,9 @@ def run(ctx):
     ctx.rule("R17.m", "restoring a Parameter restores and nothing else: no __setstate__ of a Parameter class calls a method that recomputes slots from others (_update_state, compute_default, update, _ensure_value_is_in_objects, _validate): the copy must hold what was saved, e.g. an objects list the default was removed from", floor=2)
     ctx.rule("R17.w", "no shared clock is pinned onto copied state: _Dynamic_time_fn (and the value/time pair) of a generator -- which lives in the instance's values and is duplicated by "
                       "deepcopy / pickle -- is written only by the sanctioned writers (_initialize_generator, set_dynamic_time_fn; _produce_value, _state_pop for the pair)", floor=8)
+    ctx.rule("R17.s", "every slotted class can be pickled under every protocol: a class in param / numbergen that declares non-empty __slots__ defines or inherits (from a class of the code "
+                      "base) both __getstate__ and __setstate__ -- pickle protocols 0 and 1 refuse a slotted object without __getstate__, and such objects are reachable from the private "
+                      "state of a Parameterized", floor=15)
     ctx.rule("R17.a", "__setstate__ rebuilds every method-caller watcher as _m_caller(self, name), i.e. it assumes the object HOLDING the watcher owns the method; "
                       "every installer of such a caller must therefore register _m_caller(X, ...) on X itself", floor=1)
     ctx.rule("R17.e", "__setstate__ re-creates the Watcher tuples of a copy, so (i) it rebinds a bound-method callback by name only when that method's owner IS the watched instance "
@@ -465,3 +468,21 @@ def run(ctx):
     setstate_watcher_table(ctx, "R17.i")
     from checks.shared import dynamic_cache_writers
     dynamic_cache_writers(ctx, "R17.w")
+    # R17.s
+    n_s = 0
+    for cq, cobj in sorted(ctx.repo.classes.items()):
+        node = cobj.class_assign("__slots__")
+        if node is None or (isinstance(node, (ast.List, ast.Tuple)) and not node.elts):
+            continue
+        n_s += 1
+        missing = [m for m in ("__getstate__", "__setstate__") if ctx.hier.resolve(cq, m) is None]
+        anyf = next((x for fs in cobj.methods.values() for x in fs), None)
+        if anyf is None:
+            continue
+        if missing:
+            ctx.fail("R17.s", anyf, cobj.node if hasattr(cobj, "node") else anyf.node, "class %s declares __slots__ (%s) but neither defines nor inherits %s: pickle protocols 0 and 1 raise TypeError for "
+                                                                                   "its instances, so an object that holds one cannot be pickled under every protocol" % (cq.rsplit(".", 1)[-1], norm(node)[:50], " / ".join(missing)),
+                     key="%s::slots-without-getstate" % cq)
+        else:
+            ctx.ok("R17.s", anyf, anyf.node, "%s: slotted, with __getstate__ / __setstate__" % cq.rsplit(".", 1)[-1])
+    ctx.require(n_s >= 15, "fewer than 15 slotted classes found (%d)" % n_s)
